@@ -435,6 +435,11 @@ class Evaluator(object):
                 for h in hits:
                     r = self.cor(r, h)
                 return r if name == 'in' else self.cnot(r)
+            rb = _single_atom(b) if isinstance(b, Rat) else None
+            if rb is not None and rb.kind == 'fn' and rb.name == 'range' and len(rb.args) in (1, 2) and all(isinstance(x, Rat) for x in rb.args) and isinstance(a, Rat):
+                lo, hi = (C(0), rb.args[0]) if len(rb.args) == 1 else rb.args
+                r = self.cand(self.compare(ast.LtE(), lo, a, node), self.compare(ast.Lt(), a, hi, node))
+                return r if name == 'in' else self.cnot(r)
             return alg.opaque(name, (argkey(a), argkey(b)))
         if isinstance(a, Tup) and isinstance(b, Tup) and name in ('eq', 'ne'):
             if len(a.items) != len(b.items):
@@ -1247,6 +1252,9 @@ class Evaluator(object):
             return alg.atan2(a[0], a[1])
         if mod in ('math', 'numpy') and num and short in ('pow', 'power') and len(a) == 2:
             return alg.power(a[0], a[1])
+        if mod in ('math', 'numpy') and short in ('fmod', 'remainder', 'copysign') and num and len(a) == 2:
+            # modelled as function symbols of their own (fmod takes the sign of the dividend, % that of the divisor: different functions)
+            return alg.opaque(short, (a[0], a[1]))
         if mod == 'math' and short == 'hypot' and num:
             s = C(0)
             for x in a:
